@@ -807,7 +807,7 @@ hx_spool_hash(uint64_t h)
 	return hx_hash(h, &acc, sizeof(acc));
 }
 
-/* complete calendar?  balanced BEGIN/END, ends with END:VCALENDAR */
+/* one complete calendar?  balanced BEGIN/END, nothing before the first BEGIN or behind the END that closes it */
 static int
 hx_complete_ical(const char *d, size_t len)
 {
@@ -824,6 +824,13 @@ hx_complete_ical(const char *d, size_t len)
 		} else if (ll >= 4 && !memcmp(d + o, "END:", 4)) {
 			depth--;
 			if (depth < 0) return 0;
+			if (depth == 0 && o + ll + 1 < len) {
+				/* something follows the end of the calendar */
+				return 0;
+			}
+		} else if (depth == 0) {
+			/* a line outside any component */
+			return 0;
 		}
 		o += ll + 1;
 	}
